@@ -487,6 +487,87 @@ func runC05(c *Ctx, idx int, o *Obs) {
 			}
 		}
 	}
+	// ---- gotree reroot outgroup on a file whose trees carry different subsets of the tips ----------
+	if idx%8 == 1 && lens == "all" && opts.Names == "simple" && strings.Count(start, ";") == 1 && len(all) >= 8 {
+		cl := allClades(before.m)
+		var og []string
+		for _, i := range r.Perm(len(cl)) {
+			if len(cl[i]) >= 3 && len(cl[i]) <= len(all)-4 {
+				og = cl[i]
+				break
+			}
+		}
+		if og != nil {
+			ogSet := setOf(og)
+			var texts []string
+			var models []*ref.Tree
+			for j := 0; j < 3+r.Intn(2); j++ {
+				keep := map[string]bool{}
+				nOg, nOther := 0, 0
+				for _, nm := range all {
+					drop := r.Intn(3) == 0
+					if j == 0 && nm == og[0] {
+						drop = true // the first listed outgroup tip is absent from the first tree
+					}
+					if !drop {
+						keep[nm] = true
+						if ogSet[nm] {
+							nOg++
+						} else {
+							nOther++
+						}
+					}
+				}
+				if nOg < 1 || nOther < 2 {
+					continue
+				}
+				m := before.m.Restrict(keep)
+				models = append(models, m)
+				texts = append(texts, m.Newick())
+			}
+			if len(texts) >= 2 {
+				f := tmpFile(c, "c05og.nw", strings.Join(texts, "\n")+"\n")
+				inp := strings.Join(texts, "\n") + "\noutgroup: " + strings.Join(og, ",")
+				res := runCLI(c, "", append([]string{"reroot", "outgroup", "-i", f}, og...)...)
+				o.Ev("cli:reroot outgroup multi", 1)
+				what := "gotree reroot outgroup on a file of " + fmt.Sprint(len(texts)) + " trees with different tip sets"
+				if o.Check(res.Exit == 0 && !res.Panic, "cli_failed", what+": "+res.brief(), inp) {
+					lines := strings.Split(strings.TrimSpace(res.Stdout), "\n")
+					if o.Check(len(lines) == len(texts), "cli_tree_count", fmt.Sprintf("%s: %d output trees", what, len(lines)), inp) {
+						for i, ln := range lines {
+							ct, err := parseNewick(ln)
+							if !o.Check(err == nil, "cli_output_unreadable", fmt.Sprintf("%s, tree %d: %v", what, i, err), inp) {
+								break
+							}
+							want := reduce(models[i], true)
+							after := reduce(modelOf(ct), true)
+							if d := sameTree(want, after, false); !o.Check(d == "", "cli_outgroup", fmt.Sprintf("%s, tree %d: %s", what, i, d), inp+" => "+Trunc(ln, 800), "op", "cli") {
+								break
+							}
+							// the outgroup tips present in this tree are exactly one of the two clades below the root
+							var present []string
+							for _, nm := range want.tx.Names {
+								if ogSet[nm] {
+									present = append(present, nm)
+								}
+							}
+							okClade := false
+							if len(after.m.Root.Children) == 2 {
+								for _, ch := range after.m.Root.Children {
+									okClade = okClade || sameStrings(nodeTipNames(ch), present)
+								}
+							}
+							if !o.Check(okClade, "cli_outgroup_not_root_clade", fmt.Sprintf("%s, tree %d: the outgroup tips of this tree {%s} are not one of the two root clades", what, i, short(present)), inp+" => "+Trunc(ln, 800), "op", "cli") {
+								break
+							}
+							a, b := after.m.Root.Children[0].Len, after.m.Root.Children[1].Len
+							o.Check(a.Has == b.Has && math.Float64bits(a.V) == math.Float64bits(b.V), "cli_outgroup_halves", fmt.Sprintf("%s, tree %d: root branches %v and %v are not two equal halves", what, i, a, b), inp+" => "+Trunc(ln, 800), "op", "cli")
+						}
+					}
+				}
+			}
+		}
+	}
 	o.Nontrivial = innerBranches >= 2 && succeeded > 0
 	_ = strings.Join
 	_ = sort.Strings
